@@ -24,6 +24,15 @@ PROPS = {
         real=['util::AsyncPipe (producers, back-end thread, timed flush, back-pressure, cleanup)'],
         stub=['kernel thread scheduling (seeded scheduler)', 'monotonic clock (virtual)', 'the sink (records bytes; may be slow)'],
     ),
+    'C01': dict(
+        harness='c01_looptasks',
+        title='Loop deferred tasks',
+        flavours=dict(asan=dict(quick_s=30, thorough_s=600), tsan=dict(quick_s=12, thorough_s=300)),
+        race_re=r'modules/(tbox/)?event/',
+        mode='threads',
+        real=['event::CommonLoop run queues, eventfd wake-up, shutdown drain, destructor drain', 'EpollLoop', 'SelectLoop', 'EpollFdEvent/SelectFdEvent (wake-up event)'],
+        stub=['kernel thread scheduling (seeded scheduler)', 'monotonic clock (virtual)', 'epoll_wait/select blocking (zero-timeout probes of the real kernel objects, EINTR and late wake-ups injected)'],
+    ),
 }
 
 NOT_APPLICABLE = {
@@ -35,4 +44,4 @@ NOT_APPLICABLE = {
 
 # planned in DESIGN.md §7 but whose harness is not built yet — not claimed until it is
 PENDING = {p: 'harness not built yet (planned in DESIGN.md §7); not claimed until the check exists' for p in
-           ['C01', 'C02', 'C03', 'C04', 'C06', 'C09', 'C11', 'C12', 'C13', 'C14', 'C15', 'C17', 'C18', 'C20']}
+           ['C02', 'C03', 'C04', 'C06', 'C09', 'C11', 'C12', 'C13', 'C14', 'C15', 'C17', 'C18', 'C20']}
